@@ -390,5 +390,15 @@ def _pin_p39():
     return None if got == want else f"mergeRanks(absolute, max) with ranks K, N declared uncompressed gives {got}, expected {want}"
 
 
-PINNED = {"P39-merge-pads-uncompressed-ranks": _pin_p39, "P21-unflatten-estimated-shape": _pin_p21, "P22-merge-pads-with-default": _pin_p22,
+def _pin_p41():
+    t = Tensor(rank_ids=["M", "K", "N", "P"], shape=[2, 2, 2, 2], default=2)
+    for p, v in {(0, 0, 0, 0): 0, (0, 0, 0, 1): 0, (0, 1, 0, 0): 0, (1, 0, 0, 0): 0}.items():
+        t.getPayloadRef(*p).__ilshift__(v)
+    got = observe.tensor_content(t.mergeRanks(depth=0, levels=2, coord_style="absolute"))
+    want = {(0, 0): 0, (0, 1): 0}
+    return None if got == want else (f"mergeRanks(levels=2, absolute) of four stored zeros under default 2 gives {got}, "
+                                     f"expected {want}")
+
+
+PINNED = {"P41-merged-subfiber-loses-default": _pin_p41, "P39-merge-pads-uncompressed-ranks": _pin_p39, "P21-unflatten-estimated-shape": _pin_p21, "P22-merge-pads-with-default": _pin_p22,
           "P35-flatten-default-from-empty-lower": _pin_p35, "P38-multilevel-merge-drops-default-valued-partial": _pin_p38}
